@@ -91,7 +91,7 @@ shape the parser builds that is rows or an error value - not a panic. -/
 theorem session_select_outcome {s : Sess} {w : String → Spec.SDB} (h : SessAbs s w) {n : String}
     (hc : s.cur = some n) (q : Select) (hn : UserTables q) :
     exec s (.select q) = (s, selectOut (evaluateSelect (fetchOfPlain (w n)) q)) ∧
-    (((∃ a, q.list = [⟨.star, a⟩]) ∨ isStar q.list = false) →
+    ((Exec.NoPanicP.ParsedShape q) →
       ∀ x, evaluateSelect (fetchOfPlain (w n)) q ≠ .panic x) := by
   cases hg : getDB s n with
   | none =>
@@ -119,21 +119,22 @@ theorem SessAbs.typed_cur {s : Sess} {w : String → Spec.SDB} (h : SessAbs s w)
 
 /-- **A query with a reference meaning is answered by the executor on a typed plain database** - the
 "meaningful query is answered" theorems of C05 / C06 / C07 in one statement: any FROM clause; without
-aggregates and GROUP BY no further hypothesis; with them, a select list that does not start with `*` and
-`avgGroupsConstant` (the known finding about AVG). -/
+aggregates and GROUP BY no further hypothesis; with them `avgGroupsConstant` (the known finding about
+AVG; a select list that starts with `*` has no meaning then).  `hne`, `hb`: a select list that is not
+empty, no negative LIMIT / OFFSET (every parsed statement). -/
 theorem meaningful_answered {fetch : Bytes → Option Table} (hws : NoPanicP.WellShaped fetch) {q : Select}
+    (hne : q.list ≠ []) (hb : Spec.boundsOK q.lim = true)
     {want : List Row} {keys : List (Nat × Bool)}
     (hm : Spec.meaning fetch q = some want)
     (hk : Spec.sortKeys q (judgeHeader fetch q) = some keys)
     (hcomp : ∀ a ∈ want, ∀ b ∈ want, KeyComparable keys a b)
-    (hgrp : groups q = true → isStar q.list = false ∧ avgGroupsConstant fetch q = true) :
+    (hgrp : groups q = true → avgGroupsConstant fetch q = true) :
     ∃ got, got.Perm want ∧
       evaluateSelect fetch q = .ok (cut q.lim (sortRows keys got), judgeHeader fetch q) := by
   obtain ⟨tr, _, _, hfrom, _⟩ := meaning_some_from hm
   cases hg : groups q with
   | true =>
-    obtain ⟨hs, havg⟩ := hgrp hg
-    exact agg_any_answered hfrom hs hg (avgConst_of_avgGroupsConstant hfrom havg) hws hm hk hcomp
+    exact agg_any_answered hfrom hg hne hb (avgConst_of_avgGroupsConstant hfrom (hgrp hg)) hws hm hk hcomp
   | false =>
     have hagg : hasAggr q.list = false := by
       unfold groups at hg
@@ -146,18 +147,18 @@ theorem meaningful_answered {fetch : Bytes → Option Table} (hws : NoPanicP.Wel
       cases hq : q.groupBy with
       | nil => rfl
       | cons a l => rw [hq] at hg; simp at hg
-    exact from_any_answered hfrom hagg hgb hm hk hcomp
+    exact from_any_answered hfrom hagg hgb hne hb hm hk hcomp
 
 /-- **A meaningful SELECT is not refused at the session level either.** -/
 theorem session_meaningful_select_answered {s : Sess} {w : String → Spec.SDB} (h : SessAbs s w) {n : String}
-    (hc : s.cur = some n) (q : Select) (hn : UserTables q)
+    (hc : s.cur = some n) (q : Select) (hq : Exec.NoPanicP.ParsedShape q) (hn : UserTables q)
     {want : List Row} {keys : List (Nat × Bool)}
     (hm : Spec.meaning (fetchOfPlain (w n)) q = some want)
     (hk : Spec.sortKeys q (judgeHeader (fetchOfPlain (w n)) q) = some keys)
     (hcomp : ∀ a ∈ want, ∀ b ∈ want, KeyComparable keys a b)
-    (hgrp : groups q = true → isStar q.list = false ∧ avgGroupsConstant (fetchOfPlain (w n)) q = true) :
+    (hgrp : groups q = true → avgGroupsConstant (fetchOfPlain (w n)) q = true) :
     exec s (.select q) = (s, .ok) := by
-  obtain ⟨got, _, he⟩ := meaningful_answered (fetchOfPlain_wellShaped (h.typed_cur hc)) hm hk hcomp hgrp
+  obtain ⟨got, _, he⟩ := meaningful_answered (fetchOfPlain_wellShaped (h.typed_cur hc)) hq.ne_nil hq.bounds hm hk hcomp hgrp
   rw [(session_select_outcome h hc q hn).1, he]
   rfl
 
@@ -214,8 +215,8 @@ theorem sessT_after_insert_select_answered :
     ∃ s1, exec sessT (.insert tname [] [[.int 5], [.int 6]]) = (s1, .ok) ∧
       exec s1 (.select exGroupQuery) = (s1, .ok) := by
   obtain ⟨s1, w, e, h1, hc, hw⟩ := sessT_after_insert
-  obtain ⟨hm, hk, hcomp, hs, havg⟩ := exGroupQuery_meaning_sdbA1
-  refine ⟨s1, e, session_meaningful_select_answered h1 hc exGroupQuery exQueries_ok.2.1
-    (by rw [hw]; exact hm) (by rw [hw]; exact hk) hcomp (fun _ => ⟨hs, by rw [hw]; exact havg⟩)⟩
+  obtain ⟨hm, hk, hcomp, _, havg⟩ := exGroupQuery_meaning_sdbA1
+  refine ⟨s1, e, session_meaningful_select_answered h1 hc exGroupQuery exQueries_ok.1 exQueries_ok.2.1
+    (by rw [hw]; exact hm) (by rw [hw]; exact hk) hcomp (fun _ => by rw [hw]; exact havg)⟩
 
 end Mkdb.Session
